@@ -82,9 +82,10 @@ def main():
         result["demo_changed_tail"] = out[-600:]
         if not a.skip_suite:
             t0 = time.time()
-            rc, out = run([PY, "-m", "pytest", "-q", "-p", "no:cacheprovider", "--timeout=900", "-n", "8",
+            rc, out = run([PY, "-m", "pytest", "-q", "-p", "no:cacheprovider", "--timeout=900", "-n", "10",
                            "--continue-on-collection-errors", "tests"], wt, env, 7200)
-            tail = out.strip().splitlines()[-1] if out.strip() else ""
+            lines = [l for l in out.strip().splitlines() if re.search(r"\d+ (passed|failed|error)", l)]
+            tail = lines[-1] if lines else (out.strip().splitlines()[-1] if out.strip() else "")
             result["suite"] = {"rc": rc, "summary": tail, "wall_s": round(time.time() - t0)}
             m_fail = re.search(r"(\d+) failed", tail)
             m_err = re.search(r"(\d+) error", tail)
